@@ -42,7 +42,7 @@ def gen_case(rnd, tier: str, i: Any) -> Dict[str, Any]:
     pool = rnd.sample(["aten::mm", "aten::add", "aten::addmm", "aten::linear", "aten::copy_"], rnd.randint(2, 4))
     if meta:
         pool = pool[:2] + rnd.sample(META_OPS, rnd.randint(2, 4))
-    first_step = rnd.randint(1, 500)
+    first_step = gen_sim.pick_first_step(rnd)
     files = {}
     for r in range(n_ranks):
         p = gen_sim.random_params(rnd, tier, rank=r, n_steps=n_steps, first_step=first_step, autograd=False, avoid_k1=True, repeat_names=True,
